@@ -202,7 +202,7 @@ def two_first_requests(mode: int, first: int, p1: int, p2: int) -> bool:
     return _verdict(s, server, impl, log, 2, mode)
 
 
-@cond(q=60, t=900, tiers=("thorough",), engine="coop", encoded=ENCODED, bound="3 requests, 3 preemptions",
+@cond(q=60, t=2400, tiers=("thorough",), engine="coop", encoded=ENCODED, bound="3 requests, 3 preemptions",
       replay=lambda a: _replay(3, a["mode"], a["first"], [(a["p1"], a["t1"]), (a["p2"], a["t2"]), (a["p3"], a["t3"])]), signature=_sig(3, lambda a: [(a["p1"], a["t1"]), (a["p2"], a["t2"]), (a["p3"], a["t3"])]))
 def three_first_requests(mode: int, first: int, p1: int, t1: int, p2: int, t2: int, p3: int, t3: int) -> bool:
     """
